@@ -8,7 +8,7 @@
 From Coq Require Import List Arith ZArith Bool.
 From Verif Require Import lib.Wire c15.Lts c15.Model c15.Spec c15.Proofs c15.Proofs_Chan c15.Proofs_Loc
   c15.Proofs_List c15.Proofs_Safe c15.Proofs_Init c15.Proofs_Once c15.Proofs_Thm c15.Proofs_Grow
-  c15.Proofs_First c15.Proofs_Wild.
+  c15.Proofs_First c15.Proofs_Wild c15.Proofs_Live.
 Import ListNotations.
 
 (* the checked tie: a label trace accepted by conform_case's search is the
@@ -140,3 +140,75 @@ Theorem c15_wildcard_same_rules : forall st sched s c k, initial st ->
   proj k (hist c) ++ pendw (run step st sched) k s = proj k (expd c).
 Proof. exact wildcard_same_rules_l. Qed.
 Print Assumptions c15_wildcard_same_rules.
+
+(* no deadlock (partial: a state-predicate progress lemma, not liveness under
+   fairness; DESIGN.md section 10).  A held node lock is never leaked: its
+   recorded holder is a thread inside that node's critical region; and that
+   thread can take a step unless it is sending to a full open channel, in which
+   case the channel's consumer (if a receive is pending) or its drainer (if
+   Close has started) can take a step.  So every thread waiting for n.lk waits
+   for a thread that waits only for a live consumer or for Close.  (The bus
+   lock and the wildcard write lock are not covered by a theorem.) *)
+Theorem c15_no_deadlock_partial : forall st sched n nd t, initial st ->
+  nth_error (nodes (run step st sched)) n = Some nd -> holder nd = Some t ->
+  in_region (run step st sched) n t /\
+  (enabled (run step st sched) t \/ exists x, stalled_on_full (run step st sched) x).
+Proof. exact no_deadlock_partial_l. Qed.
+Print Assumptions c15_no_deadlock_partial.
+
+(* the same for holders of the wildcard read lock *)
+Theorem c15_reader_progress_partial : forall st sched k e n todo, initial st ->
+  nth_error (emits (run step st sched)) k = Some e -> epc e = EWSend n todo ->
+  enabled (run step st sched) (TEmit k) \/ exists x, stalled_on_full (run step st sched) x.
+Proof. exact reader_progress_l. Qed.
+Print Assumptions c15_reader_progress_partial.
+
+(* ---- non-vacuity ------------------------------------------------------------- *)
+(* one stateful emitter of type 0, one typed subscription (buffer 1), events 100
+   and 101: Emit(100); Subscribe; receive 100 (replay); Emit(101); receive 101;
+   Close - accepted by the LTS and by the monitor *)
+Definition ex_good : list Z := [1; 1; 1; 2; 0; 1; 0; 1; 1; 0; 0; 100; 0; 101; 15; 0; 0; 0; 0; 1; 0; 0; 0; 0; 2; 0; 0; 1; 2; 0; 0; 0; 3; 0; 0; 1; 3; 0; 0; 2; 0; 0; 0; 3; 0; 0; 100; 0; 2; 1; 0; 1; 2; 1; 0; 2; 0; 0; 0; 3; 0; 0; 101; 0; 4; 0; 0; 1; 4; 0; 0; 5; 0; 0; 0]%Z.
+Example ex_good_ok : conform_case ex_good = [] /\ monitor_case ex_good = [].
+Proof. vm_compute. split; reflexivity. Qed.
+
+(* the same run with 100 delivered twice: not a trace of the LTS, and the monitor
+   reports rule 5 (duplicate) *)
+Definition ex_dup : list Z := [1; 1; 1; 2; 0; 1; 0; 1; 1; 0; 0; 100; 0; 101; 15; 0; 0; 0; 0; 1; 0; 0; 0; 0; 2; 0; 0; 1; 2; 0; 0; 0; 3; 0; 0; 1; 3; 0; 0; 2; 0; 0; 0; 3; 0; 0; 100; 0; 2; 1; 0; 1; 2; 1; 0; 2; 0; 0; 0; 3; 0; 0; 100; 0; 4; 0; 0; 1; 4; 0; 0; 5; 0; 0; 0]%Z.
+Example ex_dup_rejected : conform_case ex_dup <> [] /\ monitor_case ex_dup = [902; 5; 11; 0; 100]%Z.
+Proof. vm_compute. split; [discriminate|reflexivity]. Qed.
+
+(* the retained event is skipped (101 arrives while the consumer waits, 100 never): rule 10 *)
+Definition ex_noreplay : list Z := [1; 1; 1; 2; 0; 1; 0; 1; 1; 0; 0; 100; 0; 101; 13; 0; 0; 0; 0; 1; 0; 0; 0; 0; 2; 0; 0; 1; 2; 0; 0; 0; 3; 0; 0; 1; 3; 0; 0; 2; 0; 0; 0; 0; 2; 1; 0; 1; 2; 1; 0; 3; 0; 0; 101; 0; 4; 0; 0; 1; 4; 0; 0; 5; 0; 0; 0]%Z.
+Example ex_noreplay_rejected : conform_case ex_noreplay <> [] /\ monitor_case ex_noreplay = [902; 10; 7; 0]%Z.
+Proof. vm_compute. split; [discriminate|reflexivity]. Qed.
+
+(* buffer 0, two Emits return although nothing was received (dropped): rule 9 *)
+Definition ex_drop : list Z := [1; 1; 1; 2; 0; 1; 0; 0; 1; 0; 0; 100; 0; 101; 11; 0; 0; 0; 0; 1; 0; 0; 0; 0; 3; 0; 0; 1; 3; 0; 0; 0; 2; 0; 0; 1; 2; 0; 0; 0; 2; 1; 0; 1; 2; 1; 0; 2; 0; 0; 0; 3; 0; 0; 101; 5; 0; 0; 0]%Z.
+Example ex_drop_rejected : conform_case ex_drop <> [] /\ monitor_case ex_drop = [902; 9; 6; 0]%Z.
+Proof. vm_compute. split; [discriminate|reflexivity]. Qed.
+
+(* an event is received after Close returned: rule 4 *)
+Definition ex_afterclose : list Z := [1; 1; 1; 2; 0; 1; 0; 1; 1; 0; 0; 100; 0; 101; 11; 0; 0; 0; 0; 1; 0; 0; 0; 0; 3; 0; 0; 1; 3; 0; 0; 0; 2; 0; 0; 1; 2; 0; 0; 0; 4; 0; 0; 1; 4; 0; 0; 2; 0; 0; 0; 3; 0; 0; 100; 5; 0; 0; 0]%Z.
+Example ex_afterclose_rejected : conform_case ex_afterclose <> [] /\ monitor_case ex_afterclose = [902; 4; 9; 0; 100]%Z.
+Proof. vm_compute. split; [discriminate|reflexivity]. Qed.
+
+(* Emit and Close never return: rule 12 (deadlock) *)
+Definition ex_stuck : list Z := [1; 1; 1; 2; 0; 1; 0; 0; 1; 0; 0; 100; 0; 101; 7; 0; 0; 0; 0; 1; 0; 0; 0; 0; 3; 0; 0; 1; 3; 0; 0; 0; 2; 0; 0; 0; 4; 0; 0; 5; 0; 0; 0]%Z.
+Example ex_stuck_rejected : monitor_case ex_stuck = [902; 12; 6]%Z.
+Proof. vm_compute. reflexivity. Qed.
+
+(* a reachable state meeting the hypotheses of the progress lemma: the emitter
+   holds n.lk and is stalled on the full unbuffered channel of a subscriber that
+   nobody reads *)
+Definition ex_init : state := init_state 1 [new_sub (Some [0]) 0] [new_emitter 0 false] [new_emit 0 100%Z].
+Definition ex_sched : list thr :=
+  [TEmNew 0; TEmNew 0; TEmNew 0; TEmNew 0; TSub 0; TSub 0; TSub 0; TReplay 0 0; TSub 0; TEmit 0; TEmit 0; TEmit 0; TEmit 0].
+Example ex_stalled :
+  initial ex_init /\
+  (exists nd, nth_error (nodes (run step ex_init ex_sched)) 0 = Some nd /\ holder nd = Some (TEmit 0)) /\
+  step (run step ex_init ex_sched) (TEmit 0) = None /\
+  (exists c, nth_error (subs (run step ex_init ex_sched)) 0 = Some c /\ room c = false /\ closed c = false /\ expd c = [(0, 100%Z)] /\ hist c = []).
+Proof.
+  split; [exact (init_state_initial 1 [(Some [0], 0)] [new_emitter 0 false] [(0, 100%Z)])|].
+  vm_compute. split; [eexists; split; reflexivity|]. split; [reflexivity|]. eexists. repeat split.
+Qed.
